@@ -79,8 +79,13 @@ class SArr:
         assert len(idx) == self.ndim, (len(idx), self.ndim)
         return self._at(tuple(_z(i) if not isinstance(i, z3.ExprRef) else i for i in idx))
 
-    def copy(self):
-        return self
+    def copy(self, *a, **k):
+        # a distinct object: a ufunc writing into the copy (out=) must not be seen through the original
+        out = SArr(self.shape, self._at, self.dtype, self.log, self.kind, self.struct)
+        for extra in ("lemmas", "_symx_token", "is_bool"):
+            if hasattr(self, extra):
+                setattr(out, extra, getattr(self, extra))
+        return out
 
     def __len__(self):
         if not self.shape:
